@@ -385,13 +385,19 @@ def orAllB : List (Option Bool) → Option Bool
     | _, _ => none
 
 /-- the other FATALs the fixer can raise on one type expression of this algebra (outside the
-    catalogue): IMPLICIT on a member that must be EXPLICIT; tagged additions with untagged
-    root under AUTOMATIC TAGS -/
+    catalogue): IMPLICIT on a member (or SEQUENCE OF / SET OF element) that must be EXPLICIT; tagged additions
+    with untagged root under AUTOMATIC TAGS -/
 def nodeOther (M : Module) : Ty → Option Bool
   | .constr _ _ r _ a =>
     match fixConstr M r a with
     | none => none
     | some fc => some (fc.fImplicit || fc.fExt)
+  | .seqOf _ e =>
+    -- the element type of SEQUENCE OF / SET OF: `asn1f_fix_constr_tag(arg, 0)` resolves a tag written on it
+    -- through `_asn1f_fix_type_tag`, like the tag of a component
+    match fixTypeTag M e with
+    | none => none
+    | some (_, f) => some f
   | _ => some false
 
 /-- `asn1f_fix_constr_tag(arg, 1)`: the tag of a top-level type -/
